@@ -185,7 +185,8 @@ Record config := {
   c_name : name;
   c_dir : option (list (name * tree));      (* src_path is a directory: its listing (os.listdir / os.scandir order) *)
   c_zips : list (name * list member);       (* members (namelist order) of the *.zip files directly inside it *)
-  c_zip : option (list member);             (* src_path.with_suffix(".zip") exists: its members *)
+  c_zip : option (list member);             (* zip_path_of(src_path) = "<src_path>.zip" exists: its members
+                                               (fixes/C20_dotted_relative_path.patch: not with_suffix(".zip")) *)
   c_workers : nat;                          (* num_workers *)
 }.
 
